@@ -139,6 +139,18 @@ def _clean(p):
     return p
 
 
+def _category(path, cwd):
+    """Coarse name of a written non-target file: first component below cwd, else kind."""
+    if path.startswith(cwd + "/"):
+        rel = path[len(cwd) + 1:]
+        return rel.split("/")[0] + ("/*" if "/" in rel else "")
+    if path.startswith("pipe:") or path.startswith("socket:"):
+        return "<pipe>"
+    if path.startswith("/dev/"):
+        return path
+    return "<other:%s>" % os.path.dirname(path)
+
+
 def parse_trace(tracefile, targets, cwd):
     """targets: {role: absolute real path}.  Returns a dict of counters and the trace lines of
     successful write-class calls on a target."""
@@ -222,8 +234,7 @@ def parse_trace(tracefile, targets, cwd):
                     role = hit(path)
                     if role is None and ok:
                         res["nontarget_writes"] += 1
-                        if len(res["nontarget_files"]) < 40:
-                            res["nontarget_files"].add(os.path.basename(_clean(path))[:40])
+                        res["nontarget_files"].add(_category(_clean(path), cwd))
             elif name in PATH_WRITE_CALLS:
                 for s in _STR.findall(args):
                     role = role or hit(s)
